@@ -3,7 +3,7 @@ import os, subprocess, json, re, sys, collections, shutil
 from common import *
 
 NZ_RE = re.compile(r'8000000000000000')
-EXPECT_THEOREMS = 16
+EXPECT_THEOREMS = 17
 
 
 def nz(l):
@@ -359,7 +359,7 @@ def run(ck):
         d = first_diff([nz(l) for l in r['I']], [nz(l) for l in r['X']])
         if d:
             sig = classify(r, d[1], d[2])
-            ck.add_violation(sig, 'an int suffix value INT_MIN written in text format cannot be read back: fed "%s", reader reported "%s" (%s)' %
+            ck.add_violation(sig, 'regression of f881e91: an int suffix value INT_MIN cannot be read back: fed "%s", reader reported "%s" (%s)' %
                              (d[2], d[1], '; '.join(r['Icomment'])[:200]), replay_obj(r, {'probe': 'probe-intmin'}))
     if rcp != 0:
         ck.add_violation('suffix:int-min-abort', 'probe-intmin aborted: %s' % errp[-400:], {'stderr': errp})
